@@ -79,6 +79,19 @@ func checkC08(c SubstCase) Outcome {
 				break
 			}
 		}
+	case "long-allowed", "long-expr": // the swapped spelling meets the probe across an allowed list of 41 entries (index / bucket fast paths)
+		pad := c11Padding(Tbl(), 40)
+		at := int(hash64(c.S1+c.Probe) % uint64(len(pad)+1))
+		mk := func(e string) []string {
+			return append(append(append([]string{}, pad[:at]...), e), pad[at:]...)
+		}
+		if c.Ctx == "long-allowed" {
+			r1, r2 = Satisfies(c.Probe, mk(t1)), Satisfies(c.Probe, mk(t2))
+			d1, d2 = fmt.Sprintf("Satisfies(%q, {40 unrelated ids and %q at %d})", c.Probe, t1, at), fmt.Sprintf("Satisfies(%q, {40 unrelated ids and %q at %d})", c.Probe, t2, at)
+		} else {
+			r1, r2 = Satisfies(t1, mk(c.Probe)), Satisfies(t2, mk(c.Probe))
+			d1, d2 = fmt.Sprintf("Satisfies(%q, {40 unrelated ids and %q at %d})", t1, c.Probe, at), fmt.Sprintf("Satisfies(%q, {40 unrelated ids and %q at %d})", t2, c.Probe, at)
+		}
 	case "embedded-lookalike": // reference names that spell the other form, to the left of the swapped term
 		e1 := fmt.Sprintf("LicenseRef-%s OR DocumentRef-%s:LicenseRef-a OR %s", c.S2, c.S2, t1)
 		e2 := fmt.Sprintf("LicenseRef-%s OR DocumentRef-%s:LicenseRef-a OR %s", c.S2, c.S2, t2)
@@ -105,7 +118,7 @@ func checkC08(c SubstCase) Outcome {
 // TestC08_Sweep: every listed id x both spelling pairs x contexts.
 func TestC08_Sweep(t *testing.T) {
 	cfg := Cfg()
-	rec := NewRecorder("C08", "sweep", "EVERY active and deprecated id X (quick: all ids that sit in a table family or have a listed -only/-or-later sibling, plus a seeded 1/8 of the rest; thorough: all) x pairs (X+,X-or-later), (X,X-only) x contexts {expression term, allowed entry, embedded in a compound expression} x probes {every id of X's table family and stem with and without '+', X's own spellings, 3 unrelated ids} x {no exception, same exception both sides, exception on one side}; validity of all four spellings asserted for active X; oracle: validity and Satisfies unchanged by the substitution; non-trivial = probe is another id of the family, or '+' or an exception is involved; distinct by full case")
+	rec := NewRecorder("C08", "sweep", "EVERY active and deprecated id X (quick: all ids that sit in a table family or have a listed -only/-or-later sibling, plus a seeded 1/8 of the rest; thorough: all) x pairs (X+,X-or-later), (X,X-only) x contexts {expression term, allowed entry, either of those across an allowed list of 41 entries, embedded in a compound expression} x probes {every id of X's table family and stem with and without '+', X's own spellings, 3 unrelated ids} x {no exception, same exception both sides, exception on one side}; validity of all four spellings asserted for active X; oracle: validity and Satisfies unchanged by the substitution; non-trivial = probe is another id of the family, or '+' or an exception is involved; distinct by full case")
 	defer rec.Finish(t)
 	tb := Tbl()
 	exc := "Classpath-exception-2.0"
@@ -162,9 +175,12 @@ func TestC08_Sweep(t *testing.T) {
 				}
 			}
 			probes = append(probes, tb.UnrelatedIDs()[:3]...)
-			for _, probe := range probes {
-				for _, ctx := range []string{"expr", "allowed", "embedded", "embedded-siblings", "embedded-lookalike"} {
+			for pi, probe := range probes {
+				for _, ctx := range []string{"expr", "allowed", "embedded", "embedded-siblings", "embedded-lookalike", "long-allowed", "long-expr"} {
 					for ei, ex := range [][2]string{{"", ""}, {exc, exc}, {exc, ""}, {"", exc}, {exc, exc2}} {
+						if strings.HasPrefix(ctx, "long-") && (ei > 1 || (pi >= 10 && !all)) {
+							continue
+						}
 						if ctx == "embedded" && ei > 1 {
 							continue
 						}
